@@ -226,10 +226,10 @@ def t3_programs(tier):
         ["await ActGAction()"],
     ]
     a_ends = [("E1", "E4"), ("E1", "E1")]
-    for gb, (e1, e2), nested in itertools.product(g_bodies, a_ends, [False, True]):
+    for gb, (e1, e2), nested, a2_end in itertools.product(g_bodies, a_ends, [False, True], ["abort", "finish"]):
         g = "flow g\n" + ind(gb)
         a1 = "flow a1\n" + ind(["activate g", f"match {e1}()"])
-        a2 = "flow a2\n" + ind(["activate g", f"match {e2}()", "abort"])
+        a2 = "flow a2\n" + ind(["activate g", f"match {e2}()"] + (["abort"] if a2_end == "abort" else []))
         if nested:
             main = "flow main\n" + ind(["activate a1", "start a2", "match Never()"])
             activators = {"g": ["a1", "a2"], "a1": ["main"]}
@@ -241,7 +241,7 @@ def t3_programs(tier):
             once = {"ActGAction": "g"}
         yield (g + "\n" + a1 + "\n" + a2 + "\n" + main, activators, once,
                ["E1", "E2", "E3", "E4"], [("StopFlow", {"flow_id": "a1"})],
-               {"t": "T3", "g": gb, "ends": [e1, e2], "nested": nested})
+               {"t": "T3", "g": gb, "ends": [e1, e2], "nested": nested, "a2_end": a2_end})
 
 
 def t4_programs(tier):
